@@ -1,10 +1,139 @@
-"""Finite sums as a spec function (filled in with the kernel properties)."""
-from .core import Unsupported
+"""Reductions. Concrete-length axes are folded exactly; symbolic-length sums are spec objects
+(`SumTag`) compared by the congruence rule: equal lengths and point-wise equal terms."""
+import z3
+
+from .arr import SymArr, new_array, _prod
+from .core import SymNum, Unsupported, and_, concrete_value, ctx, div, is_sym, ite, lift, _numeric, vmax, vmin
+
+
+def _fold(vals, op):
+    r = vals[0]
+    for v in vals[1:]:
+        r = op(r, v)
+    return r
+
+
+def _axis_reduce(a, axis, fn, kind=None):
+    """Reduce along one concrete-length axis with fn(list of V) -> V."""
+    if axis < 0:
+        axis += a.ndim
+    n = concrete_value(a.shape[axis]) if is_sym(a.shape[axis]) else a.shape[axis]
+    if n is None:
+        raise Unsupported("reduction along an axis of symbolic length")
+    n = int(n)
+    snap = a.snapshot()
+    out_shape = tuple(s for k, s in enumerate(a.shape) if k != axis)
+
+    def elem(idx):
+        vals = []
+        for t in range(n):
+            full = list(idx[:axis]) + [t] + list(idx[axis:])
+            vals.append(snap(*full))
+        return fn(vals)
+
+    return new_array(out_shape, elem, kind or a.kind)
+
+
+def _all_values(a):
+    import itertools
+
+    sizes = [concrete_value(s) if is_sym(s) else s for s in a.shape]
+    if any(s is None for s in sizes):
+        return None
+    snap = a.snapshot()
+    return [snap(*ix) for ix in itertools.product(*[range(int(s)) for s in sizes])]
+
+
+def v_sum(vals):
+    tot = 0
+    for v in vals:
+        tot = tot + _numeric(v)
+    return tot
+
+
+def v_mean(vals):
+    if not vals:
+        raise Unsupported("mean of empty")
+    return div(v_sum(vals), len(vals))
+
+
+def v_median(vals):
+    """Median of a short list of V through a compare-exchange (sorting) network."""
+    vals = [_numeric(v) for v in vals]
+    n = len(vals)
+    if n == 0:
+        raise Unsupported("median of empty")
+    if n > 5:
+        raise Unsupported("median of more than 5 symbolic values")
+    xs = list(vals)
+    for i in range(n):
+        for j in range(n - 1 - i):
+            lo, hi = vmin(xs[j], xs[j + 1]), vmax(xs[j], xs[j + 1])
+            xs[j], xs[j + 1] = lo, hi
+    if n % 2:
+        return xs[n // 2]
+    return div(xs[n // 2 - 1] + xs[n // 2], 2)
 
 
 def array_sum(a, axis=None):
-    raise Unsupported("np.sum")
+    if axis is not None:
+        return _axis_reduce(a, axis, v_sum)
+    vals = _all_values(a)
+    if vals is not None and len(vals) <= 16:
+        return lift(v_sum(vals)) if vals else 0
+    return symbolic_sum(a)
 
 
 def array_mean(a, axis=None):
-    raise Unsupported("np.mean")
+    if axis is not None:
+        return _axis_reduce(a, axis, v_mean, "f")
+    vals = _all_values(a)
+    if vals is not None and len(vals) <= 16:
+        return v_mean(vals)
+    s = symbolic_sum(a)
+    return div(s, a.size)
+
+
+def array_median(a, axis=None):
+    if axis is not None:
+        return _axis_reduce(a, axis, v_median, "f")
+    vals = _all_values(a)
+    if vals is None:
+        raise Unsupported("median of an array of symbolic size")
+    return v_median(vals)
+
+
+def array_minmax_axis(a, axis, is_min):
+    return _axis_reduce(a, axis, lambda vs: _fold([_numeric(v) for v in vs], vmin if is_min else vmax))
+
+
+# ------------------------------------------------------------------ symbolic-length sums
+
+
+class SumTag:
+    def __init__(self, n, term):
+        self.n = n  # V int: number of terms
+        self.term = term  # j -> V
+
+
+def symbolic_sum(a):
+    """Sum over all elements of a (1-D) array of symbolic length: a fresh real tagged with its terms."""
+    c = ctx()
+    if a.ndim != 1:
+        a = a.ravel()
+    snap = a.snapshot()
+    v = c.fresh("sum", "real" if a.kind == "f" else "int")
+    tag_sum(v, a.shape[0], lambda j: snap(j))
+    return v
+
+
+def tag_sum(v, n, term):
+    c = ctx()
+    c.sum_tags[v.t.get_id()] = SumTag(n, term)
+    c.used_axioms.add("finite sums are compared by congruence only: equal length and point-wise equal terms")
+
+
+def sum_tag_of(v):
+    if not isinstance(v, SymNum):
+        return None
+    return ctx().sum_tags.get(v.t.get_id())
